@@ -109,6 +109,203 @@ func genHLog(idx int, j int, rng *h.Rng, long bool) string {
 	return s
 }
 
+// boundary value of one ABI type, chosen by k (systematic, not random): 0, 1, 2^255, 2^256-1, leading zeros;
+// empty / 1 B / 31 / 32 / 33 B / 3-6 kB strings; arrays of 0, 1, 2, 299, 300 elements
+func boundaryValue(t abi.Type, k int, rng *h.Rng) string {
+	u := func(k int) string {
+		switch k % 6 {
+		case 0:
+			return "0"
+		case 1:
+			return "1"
+		case 2:
+			return new(big.Int).Lsh(big.NewInt(1), 255).String()
+		case 3:
+			return new(big.Int).Sub(two256, big.NewInt(1)).String()
+		case 4:
+			return new(big.Int).Lsh(big.NewInt(1), 248).String()
+		}
+		return rng.Big(new(big.Int).Lsh(big.NewInt(1), 200)).String() // leading zero bytes
+	}
+	switch t.String() {
+	case "uint256":
+		return u(k)
+	case "uint8":
+		return fmt.Sprint([]int{0, 1, 127, 128, 255}[k%5])
+	case "string", "bytes":
+		n := []int{0, 1, 31, 32, 33, 64, 3000, 4096, 6000}[k%9]
+		if n == 0 {
+			return "-"
+		}
+		return h.Hex(rng.Bytes(n))
+	case "bool":
+		return []string{"false", "true"}[k%2]
+	case "address":
+		b := rng.Bytes(20)
+		switch k % 4 {
+		case 0:
+			b = make([]byte, 20)
+		case 1:
+			b[0], b[1], b[2] = 0, 0, 0
+		case 2:
+			for i := range b {
+				b[i] = 0xff
+			}
+		}
+		return h.Hex(b)
+	case "address[]":
+		n := []int{0, 1, 2, 299, 300, 21}[k%6]
+		if n == 0 {
+			return "-"
+		}
+		var p []string
+		for i := 0; i < n; i++ {
+			b := rng.Bytes(20)
+			if (i+k)%5 == 0 {
+				b[0], b[1] = 0, 0
+			}
+			if (i+k)%11 == 0 {
+				b = make([]byte, 20)
+			}
+			p = append(p, h.Hex(b))
+		}
+		return strings.Join(p, ",")
+	case "uint256[2]":
+		return u(k) + "," + u(k+1)
+	case "uint256[4]":
+		return u(k) + "," + u(k+1) + "," + u(k+2) + "," + u(k+3)
+	case "bytes32":
+		b := rng.Bytes(32)
+		switch k % 3 {
+		case 0:
+			b = make([]byte, 32)
+		case 1:
+			b[0], b[31] = 0, 0
+		}
+		return h.Hex(b)
+	}
+	panic("unsupported " + t.String())
+}
+
+func be32(v *big.Int) []byte {
+	b := new(big.Int).Mod(v, two256).Bytes()
+	return append(make([]byte, 32-len(b)), b...)
+}
+
+// genAbiLogs: the ABI layer. Well-formed logs with boundary values for every table entry, then raw logs: the
+// well-formed encoding damaged in every way the decoder looks at (truncated, extended, offset / length words
+// replaced, dirty padding of uint8 / address / bool words, wrong / missing / extra topics), and random bytes.
+func genAbiLogs(thorough bool, rng *h.Rng, emit func(string)) {
+	reps := 18
+	if thorough {
+		reps = 90
+	}
+	for _, sp := range specs {
+		ev := sp.event()
+		id := h.Hex(ev.ID[:])
+		n := reps
+		if !isSubscribed(sp.idx) {
+			n = reps / 3
+		}
+		for k := 0; k < n; k++ {
+			var vals []string
+			for j, in := range ev.Inputs {
+				if k%3 == 2 {
+					vals = append(vals, genValue(in.Type, rng, k%6 == 5))
+				} else {
+					vals = append(vals, boundaryValue(in.Type, k+j, rng))
+				}
+			}
+			emit(fmt.Sprintf("al %d v %s", sp.idx, joinOr(vals, ";")))
+		}
+		// raw logs
+		var vals []string
+		for _, in := range ev.Inputs {
+			vals = append(vals, genValue(in.Type, rng, false))
+		}
+		good := pack(&sp, vals)
+		raw := func(topics string, data []byte) { emit(fmt.Sprintf("al %d r %s %s", sp.idx, topics, h.Hex(data))) }
+		other := h.Hex(rng.Bytes(32))
+		raw(id, good)                       // as emitted
+		raw(id, nil)                        // no data at all
+		raw("-", good)                      // no topics
+		raw(other, good)                    // another event's id
+		raw(id+","+other, good)             // one topic too many
+		raw(id+","+id, good)                //
+		raw(other+","+id, good)             // id in the wrong place
+		raw(id, append(append([]byte{}, good...), rng.Bytes(1+rng.Intn(64))...)) // trailing garbage
+		for _, cut := range []int{1, 31, 32, 33, len(good) - 33, len(good) - 32, len(good) - 1, len(good) / 2} {
+			if cut >= 0 && cut < len(good) {
+				raw(id, good[:cut])
+			}
+		}
+		words := len(good) / 32
+		interesting := func() *big.Int {
+			L := int64(len(good))
+			c := []*big.Int{big.NewInt(0), big.NewInt(1), big.NewInt(2), big.NewInt(31), big.NewInt(32), big.NewInt(33), big.NewInt(64),
+				big.NewInt(L), big.NewInt(L - 32), big.NewInt(L - 31), big.NewInt(L + 1), big.NewInt(L - 64), big.NewInt(L / 32),
+				new(big.Int).Sub(new(big.Int).Lsh(big.NewInt(1), 63), big.NewInt(1)), new(big.Int).Lsh(big.NewInt(1), 63), new(big.Int).Sub(new(big.Int).Lsh(big.NewInt(1), 63), big.NewInt(33)),
+				new(big.Int).Lsh(big.NewInt(1), 64), new(big.Int).Lsh(big.NewInt(1), 255), new(big.Int).Sub(two256, big.NewInt(1)), new(big.Int).Sub(two256, new(big.Int).Lsh(big.NewInt(1), 32)),
+				new(big.Int).Lsh(big.NewInt(1), 160), new(big.Int).Lsh(big.NewInt(1), 8), big.NewInt(int64(rng.Intn(int(L) + 64)))}
+			v := c[rng.Intn(len(c))]
+			if v.Sign() < 0 {
+				return big.NewInt(0)
+			}
+			return v
+		}
+		nm := 40
+		if thorough {
+			nm = 200
+		}
+		for m := 0; m < nm && words > 0; m++ {
+			d := append([]byte{}, good...)
+			for c := 1 + rng.Intn(2); c > 0; c-- {
+				copy(d[32*rng.Intn(words):], be32(interesting()))
+			}
+			raw(id, d)
+		}
+		// the head words in particular: offsets of dynamic inputs, and dirty high bytes of narrow types
+		pos := 0
+		for _, in := range ev.Inputs {
+			switch in.Type.String() {
+			case "string", "bytes", "address[]":
+				for c := 0; c < 6; c++ {
+					d := append([]byte{}, good...)
+					copy(d[pos:], be32(interesting()))
+					raw(id, d)
+				}
+				// the same tail reached through an offset that is not the canonical one: move the tail to the end
+				off := int(new(big.Int).SetBytes(good[pos : pos+32]).Int64())
+				d := append([]byte{}, good...)
+				d = append(d, good[off:]...)
+				copy(d[pos:], be32(big.NewInt(int64(len(good)))))
+				raw(id, d)
+			case "uint8", "address", "bool", "bytes32":
+				d := append([]byte{}, good...)
+				d[pos] ^= 0x80 // a bit in the part of the word the type does not use (bytes32: uses it)
+				raw(id, d)
+				d = append([]byte{}, good...)
+				d[pos+31] ^= 0x02
+				raw(id, d)
+				d = append([]byte{}, good...)
+				d[pos+11] ^= 0x01
+				raw(id, d)
+			}
+			switch in.Type.String() {
+			case "uint256[2]":
+				pos += 64
+			case "uint256[4]":
+				pos += 128
+			default:
+				pos += 32
+			}
+		}
+		for c := 0; c < 6; c++ {
+			raw(id, rng.Bytes([]int{32, 64, 96, 1 + rng.Intn(300), 32 * (1 + rng.Intn(12)), 160}[c]))
+		}
+	}
+}
+
 func csvI(v []int) string {
 	var s []string
 	for _, x := range v {
@@ -306,6 +503,8 @@ func gen(tier string, rng *h.Rng, emit func(string)) {
 			emit(fmt.Sprintf("ent %s %d", genHLog(sp.idx, rng.Intn(1000), rng, false), r%2))
 		}
 	}
+	// 2c. the ABI layer through the real subscription path
+	genAbiLogs(thorough, rng, emit)
 	// 3. the real adaptor
 	lists := [][]int{nodeSubscribes}
 	nsub := 600
